@@ -210,7 +210,7 @@ def run(ctx):
     sim_clock = [(B + d, t) for d in (0, 1, 2, 6, 7, 8, 9, 10, 15, 16, 22, 23, 29, 30, 31, 37, 38) for t in (0, 1, 86399)]
     m = mc('MCConsentSim', sim_modes, [[], [('pA', B - 3, B + 2)], [('pA', B - 6, B + 1), ('pB', B, B + 1)]],
            [rep([], [], []), rep([], [B + 1], []), rep([B + 2], [B + 9], [B - 6])], [(B, 1), (B + 1, 0)], sim_clock)
-    nwalk = ctx.pick(160, 2500)
+    nwalk = ctx.pick(160, 4200)
     behaviours = 0
     for W in ((ctx.seed % 7, (ctx.seed + 3) % 7) if not th else tuple(range(7))):
         scfg = cfg(props=False, W=W, collectors=('c1', 'c2'), setmodes=('on', 'off', 'local', 'auto', '', 'On'),
@@ -241,7 +241,7 @@ def run(ctx):
     ctx.sample({'kind': 'behaviour', 'w': scenarios[ntab]['w'], 'ops': [(s['a']['op'], s['a']['a'], s['a']['n1'], s['a']['n2']) for s in scenarios[ntab]['steps']]})
 
     # ---- 5. run the real code ---------------------------------------------------------
-    nrandom = ctx.pick(1200, 25000)
+    nrandom = ctx.pick(1200, 40000)
     recs, rc, out = ctx.run_harness('./internal/verifh/c02', 'TestVerifC02Replay', inp={'scenarios': scenarios, 'random': nrandom}, timeout=2400)
     if not [x for x in recs if x.get('kind') == 'summary']:
         raise Infra('C02 harness wrote no summary:\n' + out[-3000:])
